@@ -57,7 +57,7 @@ def run(ctx):
     for ci, (m, a, M) in enumerate(combos):
         cfgp = ctx.path("rcfg-%d.json" % ci)
         json.dump({"index": {"metric": m, "algo": a, "M": M, "MMax": M, "MMax0": 2 * M}, "np": 3, "dim": 3, "keys": ["a"],
-                   "vals": 2, "ks": [1], "nids": 3, "maxlvl": 1, "stride": 4 if quick else 1, "offset": ctx.seed},
+                   "vals": 2, "ks": [1], "nids": 3, "maxlvl": 1, "stride": 4 if quick else 1, "offset": ctx.seed, "ids": (ctx.seed + ci) % 4},
                   open(cfgp, "w"))
         trace = ctx.path("rtrace-%d.ndjson" % ci)
         ctx.run([part, "replicas", cfgp, hist_path, trace, str(ctx.seed), "8" if quick else "30"], timeout=2400)
